@@ -88,6 +88,7 @@ ANCHORS = [
     ("CREATE_SYMLINK_REPLACES_ENTRY", "src/transport/local.rs", r"async fn create_symlink\([\s\S]*?(if let Ok\(meta\) = tokio::fs::symlink_metadata\(dest\)\.await \{\s*if !meta\.is_dir\(\) \{\s*tokio::fs::remove_file\(dest\))", "flag"),
     ("PLANNER_FORCES_UPDATE_OVER_DEST_LINK", "src/sync/mod.rs", r"(matches!\(task\.action, SyncAction::Skip \| SyncAction::Create\)\s*&& task\.source\.as_ref\(\)\.is_some_and\(\|f\| !f\.is_symlink\)\s*&& matches!\(self\.transport\.read_link\(&task\.dest_path\)\.await, Ok\(Some\(_\)\)\))", "flag"),
     # C18: persistence mechanisms
+    ("CHECKSUMDB_LOOKUP_GUARDS", "src/sync/checksumdb.rs", r"SELECT checksum_type, checksum FROM checksums\s*WHERE ([^\"]*)\"", "str_ws"),
     ("RESUME_SAVE_CALLS_IN_ENGINE", "src/sync/mod.rs", r"pub async fn sync\(&self[\s\S]*?\n    \}\n", "count:state\\.save\\(|resume_state\\.save\\(|\\.save\\(destination\\)\\s*\\{?[^\\n]*resume"),
     ("DIRCACHE_ROOT_KEY", "src/sync/mod.rs", r'let source_path = PathBuf::from\("([^"]*)"\);\s*!cache\.needs_rescan\(&source_path, source_mtime\)', "str"),
     # --- C01 byte-level transfer paths (SyModel/Transfer/BlockCompare.lean) ---
@@ -161,6 +162,7 @@ def extract(repo):
         try:
             if kind in ("nat", "nat_s"): vals[name] = ("Nat", str(num(ms[0])))
             elif kind == "str": vals[name] = ("String", '"' + ms[0] + '"')
+            elif kind == "str_ws": vals[name] = ("String", '"' + " ".join(ms[0].split()) + '"')
             elif kind == "strlist":
                 items = re.findall(r'"([^"]*)"', ms[0])
                 vals[name] = ("List String", "[" + ", ".join('"' + i + '"' for i in items) + "]")
